@@ -327,6 +327,19 @@ pub fn check_messages(prop: &str, scenario: &Scenario, model: &Model, res: &Exec
                 v.push(Violation::new(prop, "outline-text-mismatch", format!("op {i} {path}: {msg}")));
             }
         }
+        // ... every position of every answer exists in the text of the document it names, a
+        // reference denotes the identifier the request was made on, a link denotes a string
+        if ranges && !r["result"].is_null() {
+            let mut alts = vec![model.states[state].overlay()];
+            if let Some(alt) = model.after_close.get(i) {
+                alts.push(alt.overlay());
+            }
+            let msgs: Vec<Option<(&'static str, String)>> = alts.iter().map(|texts| wire_shape_mismatch(texts, *kind, path, *offset, &r["result"])).collect();
+            if msgs.iter().all(|m| m.is_some()) {
+                let (class, msg) = msgs[0].clone().unwrap();
+                v.push(Violation::new(prop, class, format!("op {i} {kind:?} {path}@{offset}: {msg}")));
+            }
+        }
         // ... and a hint answered for a part of the document is one of the hints of the whole
         // document, at the same place (asking for less never moves a hint)
         if *kind == ReqKind::InlayHint && *offset != 0 && model.after_close.get(i).is_none() {
@@ -364,6 +377,17 @@ pub fn check_messages(prop: &str, scenario: &Scenario, model: &Model, res: &Exec
             continue;
         }
         let Some(host) = cache.host(state) else { continue };
+        if ranges {
+            if let Some(text) = model.states.get(state).and_then(|s| s.overlay().remove(&PathBuf::from(&path))) {
+                let map = crate::refmap::RefMap::new(&text);
+                for d in diags.as_array().map(|a| a.as_slice()).unwrap_or(&[]) {
+                    if span_of(&map, &text, &d["range"]).is_none() {
+                        v.push(Violation::new(prop, "position-outside-document", format!("published for {path} version {ver}: range {} does not exist in that text", d["range"])));
+                        break;
+                    }
+                }
+            }
+        }
         let exp_all = host.diagnostics(ranges);
         let got = project_publish(diags, ranges);
         stats.publishes_checked += 1;
@@ -434,6 +458,78 @@ fn definition_text_mismatch(model: &Model, state: usize, path: &str, offset: u32
             }
         }
         _ => Some(format!("the range sent does not exist in the text of {target_path}")),
+    }
+}
+
+/// Byte span of an LSP range in `text`, if both ends exist there (on character boundaries, in order).
+fn span_of(map: &crate::refmap::RefMap, text: &str, r: &Value) -> Option<(usize, usize)> {
+    let a = map.offset_of(r["start"]["line"].as_u64()? as u32, r["start"]["character"].as_u64()? as u32)?;
+    let b = map.offset_of(r["end"]["line"].as_u64()? as u32, r["end"]["character"].as_u64()? as u32)?;
+    (a <= b && text.is_char_boundary(a) && text.is_char_boundary(b)).then_some((a, b))
+}
+
+/// Shape checks that need no analysis at all: positions exist in the document they name;
+/// every reference denotes the identifier under the cursor; every link denotes a string literal.
+fn wire_shape_mismatch(texts: &BTreeMap<PathBuf, String>, kind: ReqKind, path: &str, offset: u32, result: &Value) -> Option<(&'static str, String)> {
+    let own = texts.get(&PathBuf::from(path))?;
+    let own_map = crate::refmap::RefMap::new(own);
+    let outside = |what: String| Some(("position-outside-document", what));
+    match kind {
+        ReqKind::Definition | ReqKind::References => {
+            let wanted = ident_at(own, offset as usize);
+            let locs: Vec<&Value> = if let Some(a) = result.as_array() { a.iter().collect() } else { vec![result] };
+            for loc in locs {
+                let target_path = crate::exec::path_of_uri(loc["uri"].as_str()?);
+                let Some(target) = texts.get(&PathBuf::from(&target_path)) else {
+                    return outside(format!("a location names {target_path}, which is not a readable file of the session"));
+                };
+                let map = crate::refmap::RefMap::new(target);
+                let Some((a, b)) = span_of(&map, target, &loc["range"]) else {
+                    return outside(format!("range {} does not exist in {target_path}", loc["range"]));
+                };
+                if kind == ReqKind::References {
+                    if let Some(w) = wanted {
+                        if &target[a..b] != w {
+                            let got: String = target[a..b].chars().take(40).collect();
+                            return Some(("references-text-mismatch", format!("a reference in {target_path} denotes {got:?}, the identifier under the cursor is {w:?}")));
+                        }
+                    }
+                }
+            }
+            None
+        }
+        ReqKind::DocumentLink => {
+            for l in result.as_array()? {
+                let Some((a, b)) = span_of(&own_map, own, &l["range"]) else {
+                    return outside(format!("link range {} does not exist in {path}", l["range"]));
+                };
+                let t = &own[a..b];
+                if !(t.len() >= 2 && t.starts_with('"') && t.ends_with('"')) {
+                    let got: String = t.chars().take(40).collect();
+                    return Some(("link-text-mismatch", format!("a link of {path} denotes {got:?}, not a string literal")));
+                }
+            }
+            None
+        }
+        ReqKind::InlayHint => {
+            for h in result.as_array()? {
+                let p = &h["position"];
+                if own_map.offset_of(p["line"].as_u64()? as u32, p["character"].as_u64()? as u32).is_none() {
+                    return outside(format!("hint position {p} does not exist in {path}"));
+                }
+            }
+            None
+        }
+        ReqKind::FoldingRange => {
+            for f in result.as_array()? {
+                let (st, en) = (f["startLine"].as_u64()?, f["endLine"].as_u64()?);
+                if st > en || en as usize >= own_map.line_count() {
+                    return outside(format!("folding range {st}..{en} does not exist in {path} ({} lines)", own_map.line_count()));
+                }
+            }
+            None
+        }
+        _ => None,
     }
 }
 
